@@ -59,12 +59,16 @@ def run(ctx):
         return
     base = testsrc.all_sources()
     base += [("std:%s" % m, "%" + m) for m in ("bin", "dict", "int", "iter", "list", "num", "path", "range", "ref", "str", "vec")]
+    gen = generated_sources(ctx, base, ctx.n(600, 20000))   # mutations of repository sources only
     import os
     from vplib.common import VERIF
     cp = os.path.join(VERIF, "corpus", "c07_sources.txt")
     if os.path.exists(cp):
-        base += [("corpus:%d" % i, sexpr.parse(l)) for i, l in enumerate(open(cp)) if l.strip() and not l.startswith("#")]
-    srcs = base + generated_sources(ctx, base, ctx.n(600, 20000))
+        for i, l in enumerate(open(cp)):
+            if l.strip() and not l.startswith("#"):
+                key, src = l.split(" ", 1)
+                base.append(("corpus:%s:%d" % (key, i), sexpr.parse(src)))
+    srcs = base + gen
     srcs = [(o, s) for o, s in srcs if not IO_BUILTINS.search(s)]
     lines = [sexpr.quote(s) for _, s in srcs]
     # shard: compile (+merge, +trace) then verify, per shard, preserving order
@@ -134,6 +138,8 @@ def run(ctx):
                 structural = any(outcome == "err-" + e for e in STRUCTURAL) or outcome == "panic"
                 # F64: unnamed star pattern on a union of tuples with different label sets
                 key = "F64" if ("load rejected" in m.group(0) and re.search(r"=\*(?![A-Za-z])", src)) else None
+                if origin.startswith("corpus:") and origin.split(":")[1] != "-":
+                    key = origin.split(":")[1]
                 known_hits[key] = known_hits.get(key, 0) + 1
                 if key and known_hits[key] > 1 and ctx.findings.get(key, {}).get("status") == "known":
                     continue
